@@ -570,6 +570,30 @@ func monC13(c *child.Ctx, replay json.RawMessage) {
 				add(faultCase{Steps: mk(pos, fl), TimeoutMs: uint(cfg[1]), WaitMs: uint(cfg[0]), Tolerant: true, Note: fmt.Sprintf("%d fault(s) after byte %d, retry pause %d ms, tolerance %d ms", cfg[2], pos, cfg[0], cfg[1])}, inside[pos])
 			}
 		}
+		// a retry pause LONGER than the tolerance: legal, if odd; a single interruption
+		// is still resumed from (the handler looks again after its pause and finds data)
+		for i, cfg := range [][2]int{{300, 200}, {120, 100}, {60, 1}} {
+			if (si+i)%3 == 0 || c.Thorough() {
+				pos := r.Range(0, len(data))
+				c.Count("scripts_with_retry_pause_longer_than_tolerance", 1)
+				add(faultCase{Steps: mk(pos, []string{faultKinds[r.Intn(3)]}), TimeoutMs: uint(cfg[1]), WaitMs: uint(cfg[0]), Tolerant: true, Note: fmt.Sprintf("one fault after byte %d, retry pause %d ms, tolerance %d ms", pos, cfg[0], cfg[1])}, inside[pos])
+			}
+		}
+		// after an interruption the source answers "nothing yet" (0 bytes, no error) a
+		// hundred times or more before the data continues: no error was reported, so
+		// nothing may be given up
+		if si%2 == 0 || c.Thorough() {
+			pos := r.Range(0, len(data))
+			fl := []string{faultKinds[r.Intn(3)]}
+			if r.Chance(1, 2) {
+				fl = append(fl, faultKinds[r.Intn(3)])
+			}
+			for j := []int{99, 100, 101, 150, 300, 1000}[r.Intn(6)]; j > 0; j-- {
+				fl = append(fl, "empty")
+			}
+			c.Count("scripts_with_many_empty_reads_after_an_interruption", 1)
+			add(faultCase{Steps: mk(pos, fl), TimeoutMs: tolMs, WaitMs: 1, Tolerant: true, Note: fmt.Sprintf("%d fault(s) after byte %d, then %d empty reads, then the data continues", len(fl)-countEmpty(fl), pos, countEmpty(fl))}, inside[pos])
+		}
 		// a Config object that has been used before with the other kind of tolerance
 		{
 			pos := r.Range(0, len(data))
@@ -732,4 +756,14 @@ func monC13(c *child.Ctx, replay json.RawMessage) {
 	if notReproduced > 3+len(cases)/200 {
 		c.Inconclusive(fmt.Sprintf("%d of %d scripts made the handler give up early in the batch and never alone: too many to blame on the machine", notReproduced, len(cases)))
 	}
+}
+
+func countEmpty(fl []string) int {
+	n := 0
+	for _, f := range fl {
+		if f == "empty" {
+			n++
+		}
+	}
+	return n
 }
